@@ -1,4 +1,5 @@
 //! Shared instruments.
+pub mod chain;
 pub mod density;
 pub mod linalg;
 pub mod num;
